@@ -56,6 +56,14 @@ def pipeD (op : String) (args : List Nat) : Option String :=
       -- a schedule walk: every walk of the model ends (`pipe_measure` / `pipe_deadlock_free`)
       | [_, _, _, _, _] => "terminates"
       | _ => reject
+  | "pipedeep" => some <| match args with
+      -- the model's processing function is an arbitrary total function: its stack need is not observable
+      | [_, n, _] => ok [n]
+      | _ => reject
+  | "pipeidle" => some <| match args with
+      -- consumed items: min k n (the lookahead bound itself is `pipe_lookahead`; on the real code it is a timed observation)
+      | [_, n, k, _] => ok [min k n]
+      | _ => reject
   | "pipeslow" => some <| match args with
       | [_, n, _, _] => ok [n]
       | _ => reject
